@@ -159,7 +159,7 @@ def ev_to_step(ev):
         return {"k": k, "n": N(ev["n"])}
     if k == "client":
         return {"k": "client", "n": N(ev["n"]), "ops": [{"op": "update", "id": ev["val"]}]}
-    if k in ("fsm", "crash", "restart"):
+    if k in ("fsm", "crash", "restart", "shutdown"):
         return {"k": k, "n": N(ev["n"])}
     if k == "changeConfig":
         nodes = ev["nodes"]
@@ -268,7 +268,7 @@ def run_fuzz(binary, spec, workdir, shards=None, timeout=900, tag="fuzz"):
             p.kill()
             raise HarnessError("fuzz harness timed out")
         if p.returncode != 0:
-            raise HarnessError("fuzz harness failed (rc=%d):\n%s" % (p.returncode, o[-3000:]))
+            raise HarnessError("fuzz harness failed (rc=%d):\n%s\n...\n%s" % (p.returncode, o[:3000], o[-600:]))
     shutil.rmtree(tmp, ignore_errors=True)
     return outs
 
